@@ -7,6 +7,7 @@ to enable fine-grained incremental reprocessing of changes.
 from __future__ import annotations
 
 import argparse
+import inspect
 import io
 import json
 import os
@@ -261,8 +262,13 @@ class Server:
                     except OSError:
                         pass  # Maybe the client hung up
                     if command == "stop":
-                        reset_global_state()
-                        sys.exit(0)
+                        if "error" in resp:
+                            # The request was rejected and cmd_stop() didn't run (so the
+                            # status file is still there): keep serving.
+                            command = None
+                        else:
+                            reset_global_state()
+                            sys.exit(0)
         finally:
             # Revert stdout/stderr so we can see any errors.
             sys.stdout = orig_stdout
@@ -292,8 +298,14 @@ class Server:
         else:
             if command not in {"check", "recheck", "run"}:
                 # Only the above commands use some error formatting.
-                del data["is_tty"]
-                del data["terminal_width"]
+                data.pop("is_tty", None)
+                data.pop("terminal_width", None)
+            try:
+                inspect.signature(method).bind(self, **data)
+            except TypeError as err:
+                # A request with missing or unexpected arguments is the client's
+                # mistake, it must not crash the daemon.
+                return {"error": f"Invalid arguments for command '{command}': {err}"}
             ret = method(self, **data)
             assert isinstance(ret, dict)
             return ret
